@@ -399,7 +399,9 @@ QFORMS_T = ("{[q |-> << <<1, 2>> >>, sq |-> TRUE, kd |-> FALSE], [q |-> << <<3, 
 def enumerate_cases(ctx, fills, fam="all", orders="{0, 1, 3, 4}", label="design+cases", qforms=None):
     consts = {"Fam": fam, "Fills": TLA("{" + ", ".join(tla_fill(f) for f in fills) + "}"), "ZeroChunks": True,
               "Orders": TLA(orders), "EmptyAxes": True, "QForms": TLA(qforms or ctx.pick(QFORMS_Q, QFORMS_T))}
-    spec, cfg = ctx.model(ctx.spec("array", "ReductionsMC.tla"), consts, invariants=INVARIANTS)
+    # KeepdimsShapeOnly evaluates the reference twice per case: thorough tier (and selftest) only
+    invs = [i for i in INVARIANTS if not (ctx.quick and i == "KeepdimsShapeOnly")]
+    spec, cfg = ctx.model(ctx.spec("array", "ReductionsMC.tla"), consts, invariants=invs)
     cases, r = ctx.tlc_cases(spec, cfg, label=label, timeout=3000)
     return [c for c in cases if c], r
 
@@ -585,18 +587,26 @@ def run(ctx):
     thorough = not ctx.quick
     fills = make_fills(ctx)
     cases, _ = enumerate_cases(ctx, fills, orders=ctx.pick("{1, 3}", "{0, 1, 3, 4}"))
-    pairs = [(c, ch) for c in cases for ch in c["c"]["chunkings"]]
-    total_pairs = len(pairs)
-    cap = ctx.pick(12000, 260000)
-    sampled = len(pairs) > cap
-    if sampled:
-        pairs = ctx.rng.sample(pairs, cap)
-    items = []
-    for c, ch in pairs:
+    # share one chunking list per shape (the dump repeats it in every case)
+    shared = {}
+    for c in cases:
+        key = tuple(c["c"]["shape"])
+        c["c"]["chunkings"] = shared.setdefault(key, c["c"]["chunkings"])
+    counts = [len(c["c"]["chunkings"]) for c in cases]
+    total_pairs = sum(counts)
+    cap = ctx.pick(9000, 120000)
+    sampled = total_pairs > cap
+    picks = sorted(ctx.rng.sample(range(total_pairs), cap)) if sampled else range(total_pairs)
+    items, ci, base = [], 0, 0
+    for p in picks:
+        while p >= base + counts[ci]:
+            base += counts[ci]
+            ci += 1
+        c = cases[ci]
         vs = variants_of(c["c"])
         if not thorough and len(vs) > 2:
             vs = ctx.rng.sample(vs, 2)
-        items.append((c["c"], c["e"], ch, vs))
+        items.append((c["c"], c["e"], c["c"]["chunkings"][p - base], vs))
     replay_cases(ctx, items)
     for fam in ("fold", "arg", "cum", "topk", "quant"):
         for it in items:
@@ -604,7 +614,7 @@ def run(ctx):
                 ctx.sample({"case": slim(it[0]), "chunks": it[2], "expected": it[1]})
                 break
     # code -> spec
-    nrec = ctx.pick(1000, 20000)
+    nrec = ctx.pick(1000, 8000)
     recs = [r for r in pmap(_record, [(i, random_case(ctx.rng)) for i in range(nrec)], chunk=32) if r is not None]
     validate_records(ctx, recs)
     ctx.exhaustive = not sampled
@@ -613,7 +623,7 @@ def run(ctx):
                 "expected error, and the array has more than one block; distinct by (case, chunking, variant)")
     ctx.extra["cases_enumerated_by_tlc"] = len(cases)
     ctx.extra["case_x_chunking_pairs"] = total_pairs
-    ctx.extra["pairs_replayed"] = len(pairs)
+    ctx.extra["pairs_replayed"] = len(items)
     ctx.extra["data_fills"] = len(fills)
     ctx.assumptions = ["NumPy per-block kernels are correct", "TLC evaluates the reference semantics correctly",
                        "data fills are seeded samples over values 0..3 and NaN; shapes bounded as listed",
@@ -637,3 +647,125 @@ def replay(ctx, obj):
     print("case:", case, "\nchunks:", chunks, "variant:", variant, "\nexpected:", exp, "\nobserved:", obs,
           None if full is None else np.asarray(full).tolist(), "\nclause:", cl)
     return cl is not None
+
+
+# ----------------------------------------------------------------------------- selftest
+def _mutate(modules, funcname, old, new):
+    """In-memory source mutant of modules[0].funcname (never touches /repo): re-executes the function's source
+    with `old` replaced by `new` in its defining module and rebinds the name in every listed module."""
+    import inspect
+    home = modules[0]
+    orig = getattr(home, funcname)
+    src = inspect.getsource(orig)
+    if src.count(old) != 1:
+        raise MachineryError("selftest mutant: %r not found exactly once in %s" % (old, funcname))
+    ns = home.__dict__
+    exec(compile(src.replace(old, new), "<mutant %s>" % funcname, "exec"), ns)      # noqa: S102
+    mutant = ns[funcname]
+    for m in modules[1:]:
+        setattr(m, funcname, mutant)
+
+    def restore():
+        for m in modules:
+            setattr(m, funcname, orig)
+    return restore
+
+
+def selftest(ctx):
+    import dask.array._reductions_generic as G
+    import dask.array.reductions as R
+    rng = ctx.rng
+    fills = [{"shape": [5], "cells": [2, 0, 3, 0, 1], "kind": "i"},
+             {"shape": [4], "cells": [1, 3, 3, 0], "kind": "f"},
+             {"shape": [2, 3], "cells": [1, 3, 0, 1, 0, 3], "kind": "i"}]
+    cases, _ = enumerate_cases(ctx, fills, orders="{3}", label="selftest cases", qforms=QFORMS_Q)
+    known = set(ctx.known)
+
+    def items_for(pred, limit=70):
+        pairs = [(c, ch) for c in cases if pred(c["c"]) for ch in c["c"]["chunkings"]
+                 if not has_zero_chunk(c["c"], ch)]
+        pairs = rng.sample(pairs, min(limit, len(pairs)))
+        return [(c["c"], c["e"], ch, variants_of(c["c"])) for c, ch in pairs]
+
+    def new_violations(items):
+        found = []
+        replay_cases(ctx, items, on_violation=lambda sig, cl, case, ch, v: found.append((sig, cl)))
+        return [f for f in found if f[0] not in known]
+
+    mutants = [
+        ("arg_reduction: block offsets computed as if chunks were regular (index * first chunk size)",
+         [R], "arg_reduction", "accumulate(operator.add, bd[:-1], 0)", "(i * bd[0] for i in range(len(bd)))",
+         lambda c: c["fam"] == "arg"),
+        ("prefixscan_blelloch: down-sweep starts one block late (off-by-one in the pairing)",
+         [R], "prefixscan_blelloch", "range(stride2 + stride - 1, n_vals, stride2)", "range(stride2 + stride, n_vals, stride2)",
+         lambda c: c["fam"] == "cum" and len(c["shape"]) == 1),
+        ("cumreduction (sequential): carries the first instead of the last element of the previous block",
+         [R], "cumreduction", "(slice(-1, None),)", "(slice(0, 1),)",
+         lambda c: c["fam"] == "cum"),
+        ("_tree_reduce: depth of the combine tree one level short (last partial groups never combined)",
+         [G, R], "_tree_reduce", "for _ in range(depth - 1):", "for _ in range(depth - 2):",
+         lambda c: c["fam"] == "fold" and c["op"] in ("sum", "max", "mean", "nansum")),
+        ("moment_agg: ddof dropped from the divisor",
+         [R], "moment_agg", "denominator = n.sum(axis=axis, **kwargs) - ddof", "denominator = n.sum(axis=axis, **kwargs)",
+         lambda c: c["fam"] == "fold" and c["op"] in ("var", "std", "nanvar") and c["p"] == 1),
+        ("arg_chunk: flat offset of a block dropped for axis=None",
+         [R], "arg_chunk", "total_ind = tuple(o + i for (o, i) in zip(offset, ind))", "total_ind = tuple(i for (o, i) in zip(offset, ind))",
+         lambda c: c["fam"] == "arg" and c["ax"] == [NONE]),
+    ]
+    ok = True
+    for what, mods, fn, old, new, pred in mutants:
+        items = items_for(pred)
+        base = new_violations(items)
+        restore = _mutate(mods, fn, old, new)
+        try:
+            got = new_violations(items)
+        finally:
+            restore()
+        good = not base and len(got) > 0
+        ok = ok and good
+        print("selftest mutant [%s]: %s -> %s (%d evaluations of %d cases flagged, e.g. %s; unmutated: %d)"
+              % (fn, what, "DETECTED" if good else "MISSED", len(got), len(items), got[0][0] if got else "-", len(base)))
+    # (ii) corrupted recorded fields are rejected by the trace specification
+    recs = []
+    i = 0
+    while len(recs) < 32 and i < 300:
+        case = random_case(rng)
+        i += 1
+        if has_zero_chunk(case, case["chunks"]) or case["fam"] == "topk" and abs(case["k"]) >= case["shape"][case["ax"][0]]:
+            continue
+        r = _record((i, case))
+        if r is not None and r["obs"]["raised"] == "" and len(r["obs"]["cells"]) > 1:
+            recs.append(r)
+    spec, cfg = ctx.model(ctx.spec("array", "ReductionsTrace.tla"), {})
+    import copy
+    corrupt = []
+    for j, r in enumerate(recs):
+        c = copy.deepcopy(r)
+        kind = j % 4
+        if kind == 0:          # one cell of the recorded content changed
+            cell = c["obs"]["cells"][-1]
+            c["obs"]["cells"][-1] = [cell[0] + 1, max(1, cell[1])] if isinstance(cell, list) else (cell + 1 if cell != NAN else 0)
+            c["want"] = "Content"
+        elif kind == 1:        # an output block was dropped from the record
+            c["obs"]["blocksok"] = False
+            c["want"] = "Meta"
+        elif kind == 2:        # recorded dtype class changed
+            c["obs"]["kind"] = "b" if c["obs"]["kind"] != "b" else "i"
+            c["want"] = "Kind"
+        else:                  # recorded shape changed
+            c["obs"]["cshape"] = c["obs"]["cshape"] + [1]
+            c["want"] = "Shape"
+        c["id"] = "x" + r["id"]
+        corrupt.append(c)
+    rej = ctx.tlc_validate(spec, recs + corrupt, cfg)         # one TLC run decides originals and corrupted copies
+    rej0 = {k: v for k, v in rej.items() if not k.startswith("x")}
+    clean = [r for r in recs if r["id"] not in rej0]
+    corrupt = [c for c in corrupt if c["id"][1:] not in rej0]
+    missed = [c["id"] for c in corrupt if c["id"] not in rej or c["want"] not in rej[c["id"]][0]]
+    good = bool(clean) and not missed and len(rej0) <= len(recs) // 4
+    ok = ok and good
+    print("selftest trace: %d recorded calls accepted (%d rejected before corruption); %d corrupted copies "
+          "(content / dropped block / dtype class / shape) -> %d rejected with the expected clause: %s"
+          % (len(clean), len(rej0), len(corrupt), len(corrupt) - len(missed), "DETECTED" if good else "MISSED %r" % missed[:3]))
+    print("C22 selftest: %s" % ("ok" if ok else "FAILED"))
+    return 0 if ok else 1
